@@ -3,7 +3,12 @@ A long interleaved history of decode / run calls on shared decoder, code and err
 in this process; the same operations are re-executed (a) in a fresh interpreter with another PYTHONHASHSEED,
 fresh objects and reversed order, (b) a sample each alone in its own interpreter.  Any difference is a
 history / process dependence.  Also: caller arrays and code matrices are never modified, the recovery does not
-depend on the `error` context, and a longer seeded run extends a shorter one."""
+depend on the `error` context, and a longer seeded run extends a shorter one.
+harness/c06_extra.py adds (every scenario in a pristine fork of a fresh interpreter): groups of RELATED syndromes
+(same defects in one sector, other sector varied) decoded in every rotation and in long shuffled histories for every
+stateful decoder family; a matrix "any component family used before" x "tie-prone targets of every family"
+(all-syndrome sweeps of tiny codes, many-run seeded runs at high p); recoveries kept or overwritten by the caller;
+process-global numeric state (mpmath/numpy/decimal) snapshots that direct a heavier battery."""
 import json
 import os
 import subprocess
@@ -14,6 +19,7 @@ import numpy as np
 
 from harness.common import REPO, VERIF
 from harness import c06_worker as W
+from harness import c06_extra as X
 
 PAIRS = [
     # (code exprs, decoder exprs, error-model exprs, Y-only noise?)
@@ -64,7 +70,11 @@ def run(ctx):
                 '(reuse vs fresh construction, equal codes, other sizes/families, p = 1 vs 1.0, runs between decodes); '
                 'every operation re-executed in a fresh interpreter (other PYTHONHASHSEED, fresh objects, reversed '
                 'order) and a sample alone in their own interpreters. nontrivial = operation whose code/decoder/'
-                'error-model expression was already used earlier in the history (cache hit on shared state)')
+                'error-model expression was already used earlier in the history (cache hit on shared state). '
+                'Plus, each scenario in a pristine fork: related-syndrome groups (shared defects in one sector / shared '
+                'X-, Z- or Y-part, 3-5 variants of the other part, every rotation + long shuffled histories with repeats; '
+                'nontrivial = decode that is not the first of its scenario), and prior-family x tie-prone-target matrix '
+                '(nontrivial = target executed after a prior activity); reference = same operation first in a pristine fork')
     ctx.props_obligations()
     ns = W.namespace()
     shared = {}
@@ -113,11 +123,17 @@ def run(ctx):
     # ---- history in this process: shared objects ----
     seen = set()
     here = []
+    gstate = X.numeric_state()
+    state_changers = []
     for op in ops:
         k = (op['code'], op['dec'], op['em'])
         hit = any(x in seen for x in k)
         seen.update(k)
         r = W.execute(op, get)
+        g2 = X.numeric_state()
+        if g2 != gstate:
+            state_changers.append((op, {k2: [gstate[k2], g2[k2]] for k2 in g2 if g2[k2] != gstate[k2]}))
+            gstate = g2
         here.append(r)
         ctx.count(json.dumps(op, sort_keys=True), hit, op['op'] + ('-ftp' if op.get('T') else ''),
                   dict(op, result=r['result'][:60]) if len(ctx.samples) < 5 else None)
@@ -232,7 +248,22 @@ def run(ctx):
         if {k: v for k, v in d.items() if k != 'wall_time'} != {k: v for k, v in datas[0].items() if k != 'wall_time'}:
             ctx.violation('not-reproducible', 'repeating a seeded run in the same process gives different data', rep)
 
+    # ---- related syndromes after one another; prior component x tie-prone target matrix (pristine forks) ----
+    k = ctx.pick(1, 4)
+    state_changers += X.related_block(ctx, {'planar': 500 * k, 'planar-y': 40 * k, 'toric': 100 * k, 'rotatedplanar': 100 * k,
+                                            'rotatedtoric': 60 * k, 'color': 24 * k})
+    X.matrix_block(ctx, extra_priors=state_changers)
+
 
 def replay(path):
-    print(json.dumps(json.load(open(path)), indent=1, default=str))
+    d = json.load(open(path))
+    print(json.dumps(d, indent=1, default=str))
+    rp = d.get('replay', {})
+    if isinstance(rp, dict) and 'target' in rp and 'history' in rp:
+        # re-execute: target alone vs target after the history, each in a pristine fork
+        res = X.serve([[rp['target']], list(rp['history']) + [rp['target']]], hashseed=5)
+        a, b = res[0][0]['result'], res[1][-1]['result']
+        print('fresh     :', a[:400])
+        print('in history:', b[:400])
+        return 1 if a != b else 0
     return 0
